@@ -313,6 +313,13 @@ func pages(input OmegaInput) (output OmegaOutput) {
 		}
 	}
 
+	// r = 0: the pages become inaccessible (an absent entry is the inaccessible page)
+	if r == 0 {
+		for i := uint32(p); i < uint32(p+c); i++ {
+			delete(input.Addition.IntegratedPVMMap[n].Memory.Pages, i)
+		}
+	}
+
 	// u_a
 	if r == 1 || r == 3 {
 		for i := uint32(p); i < uint32(p+c); i++ {
